@@ -44,4 +44,17 @@ def singleValue (b : Nat) : FpVal :=
   else if e == 0 then .fin s (2 * m) 150
   else .fin s ((2 ^ 23 + m) * 2 ^ e) 150
 
+/-! ### device side of the localization stream packets (CRTP port 6, generic channel), written from the
+firmware's packet layouts: first byte = packet type, all fields little-endian and packed. -/
+
+/-- `RANGE_STREAM_REPORT` (type 0): for each anchor one byte id and the distance as a binary32 -/
+def encodeRangeReport (anchors : List (Nat × Nat)) : List UInt8 :=
+  0 :: (anchors.map fun a => UInt8.ofNat a.1 :: leBytes 4 a.2).flatten
+
+/-- `LH_ANGLE_STREAM` (type 10): base station; per sweep axis the angle seen by sensor 0 as a binary32 followed by
+the three differences `angle(sensor 0) - angle(sensor k)`, k = 1..3, as binary16 -/
+def encodeLhAngle (bs : Nat) (bx x1 x2 x3 : Nat) (by_ y1 y2 y3 : Nat) : List UInt8 :=
+  10 :: UInt8.ofNat bs :: (leBytes 4 bx ++ leBytes 2 x1 ++ leBytes 2 x2 ++ leBytes 2 x3 ++
+    leBytes 4 by_ ++ leBytes 2 y1 ++ leBytes 2 y2 ++ leBytes 2 y3)
+
 end CfVerif.C13.Spec
